@@ -11,7 +11,7 @@ def check(pid, category, text, note, technique, design_ref):
 check("C01", "exploration",
       "Every Range/DecimalRange constructor and validate() call made while a generated + bounded-exhaustive workload runs "
       "is judged by a boundary monitor against an independent model of the documented range grammar; held on the "
-      "executions observed (counts in the evidence), exhaustive for the 1-2 item sweep the property names.",
+      "executions observed (counts in the evidence), exhaustive for the 1-2 item sweep the property names and for all pairs of punctuation characters as quoted limits in every spelling.",
       "Trusts the independent grammar model cpverif/models/rangemodel.py (self-tested) and CPython 3.12.1; inputs outside the model's grammar are counted as unjudged.",
       "runtime monitor on Range.__init__/validate + executable reference model (M-range)", "DESIGN.md 5/C01")
 
@@ -19,18 +19,18 @@ check("C02", "exploration",
       "Every <Type>FieldFormat.validated() call made by a generated workload (direct calls and end-to-end through Cid.read + "
       "cutplace.rows) is judged by a boundary monitor against an independent per-type model (integer/decimal literal, choice "
       "tokenizer, date layout parser, glob and regex-subset matchers); thorough sweeps all integers of up to 6 characters for "
-      "every length declaration 0..5 exhaustively.",
+      "every length declaration 0..5 exhaustively. Fields are also used before their data format is complete (separators set later), fixed cells carry other white space at their edges, RegEx rules and cells reach beyond ASCII.",
       "Trusts cpverif/models/fieldmodel.py (self-tested), Python's int/Decimal/datetime; non-canonical spellings are unjudged.",
       "runtime monitor on FieldFormat.validated + executable reference model (M-field)", "DESIGN.md 5/C02")
 check("C03", "exploration",
       "The full product types x empty flag x length declarations x allowed-character ranges x formats x guard cells is "
       "enumerated in both tiers; every validated() call is judged by the guard part of the field model, and the same cells are "
-      "read through Reader in yield mode to check that rejections name the field.",
+      "read through Reader in yield mode to check that rejections name the field; allowed ranges are also set after the field exists / declared below the fields, and a phase in every worker offers a character under a range that excludes it right after another data format has accepted it.",
       "Trusts the guard model in cpverif/models/fieldmodel.py; only the blank (U+0020) is padding of fixed cells; non-canonical number and date spellings are unjudged.",
       "runtime monitor on FieldFormat.validated + guard model, exhaustive enumeration of the stated product", "DESIGN.md 5/C03")
 
 check("C04", "exploration",
-      "Generated CIDs and tables (accepted/rejected cells, ragged rows, headers, IsUnique) are stored in six storages "
+      "Generated CIDs and tables (accepted/rejected cells, ragged rows, headers, none / one / two IsUnique checks, every fixed line-delimiter setting) are stored in six storages "
       "(delimited stream/file, fixed stream/file, generated ODS, generated XLSX) and read with cutplace.rows(on_error='yield'); "
       "every produced item is compared with the row model: verdict, row number, first offending column, input name, field name.",
       "Trusts M-field/M-rows and the independent ODS/XLSX producers (zipfile+XML, xlsxwriter).",
@@ -38,7 +38,7 @@ check("C04", "exploration",
 check("C05", "exploration",
       "Row sequences over tiny key alphabets are read through cutplace.Reader in all three modes; each produced item, the "
       "location and see-also location of every duplicate report and the end-of-data verdict of close() are compared with an "
-      "independent uniqueness / distinct-count model; thorough enumerates all sequences of up to 5 rows over 5 row kinds.",
+      "independent uniqueness / distinct-count model (DistinctCount rules also with several comparisons; readers created up front; raise-mode runs also through cutplace.rows; errors re-inspected after the run); thorough enumerates all sequences of up to 5 rows over 5 row kinds.",
       "Trusts M-checks (two variants where a later row uses the key of a row that a later-declared check rejected: the statement's and the recorded defect's).",
       "recorded reader history vs executable model of the whole-file checks (M-checks)", "DESIGN.md 5/C05")
 
@@ -46,7 +46,7 @@ check("C06", "exploration",
       "Each generated case is read in the three error modes on fresh CIDs from six storages (alternately through Reader.rows() + close() and through cutplace.rows(), 60% of the CIDs with a DistinctCount check that can fail on a part of the data) and the recorded histories are "
       "compared with each other (continue = accepted rows of yield; raise = prefix + the same error), with the counters "
       "(conservation) and with the row model; yielded errors are re-inspected after the run; container faults are injected at "
-      "every row boundary (unterminated quote, undecodable byte, short fixed record, wrong delimiter, truncated ODS/XLSX "
+      "every row boundary (unterminated quote, undecodable byte, UTF-16/32 without byte order mark, short fixed record incl. data ending at every position inside the last record, wrong delimiter, truncated ODS/XLSX "
       "archive, cut content.xml) and must end in DataFormatError in every mode.",
       "Relational oracle over executions of the real reader plus M-reader; corrupted containers that still parse are unjudged.",
       "recorded histories of three reader runs compared relationally + fault injection at row boundaries", "DESIGN.md 5/C06")
@@ -54,7 +54,7 @@ check("C06", "exploration",
 check("C13", "fault_enumeration",
       "fixed_rows is executed on every string up to length 6 (quick) / 9 (thorough) over {a,b,CR,LF} x all 39 width lists x the "
       "five delimiter settings and on single-character deletions / insertions / replacements at every offset of longer files "
-      "(streams and real files); each execution is judged for losslessness (input rebuilt from the rows with permitted "
+      "(streams and real files), the strings up to length 5 / 6 also through cutplace.Reader on a character stream; each execution is judged for losslessness (input rebuilt from the rows with permitted "
       "delimiters), item widths, error type, and acceptance of well-formed inputs. Exhaustive over the bounded space.",
       "Oracle is a reconstruction search independent of cutplace; acceptance of records that themselves contain CR/LF is unjudged.",
       "exhaustive execution of the real reader under a reconstruction oracle + single-character fault injection", "DESIGN.md 5/C13")
@@ -85,7 +85,7 @@ check("C08", "exploration",
       "Operation histories (reads in all modes, abandoned / unclosed / never started reads, validate with limit 0, writes with "
       "and without close) are executed on one Cid object; the recorded outcome of the last operation of every history - items, "
       "rejections with row numbers, end-of-data result, written text, counters - must equal the recorded outcome of the same "
-      "operation on a freshly loaded Cid. All histories up to length 2 (quick) / 3 (thorough) over 54 operations x 4 CIDs are "
+      "operation on a freshly loaded Cid. All histories up to length 2 (quick) / 3 (thorough) over 60 operations x 5 CIDs are "
       "enumerated, longer ones sampled; pairs of runs that overlap in time (every interleaving of open / one row per step / close) are compared with each run alone on a fresh Cid.",
       "The reference is the implementation itself with fresh state (history + model where model = fresh execution).",
       "recorded operation histories compared with fresh-state executions of the same operation", "DESIGN.md 5/C08")
